@@ -20,6 +20,11 @@ use std::sync::atomic::{AtomicUsize, Ordering};
 use std::sync::Arc;
 use std::hash::Hash;
 macro_rules! debug { ($($t:tt)*) => { () } }
+macro_rules! trace { ($($t:tt)*) => { () } }
+macro_rules! info { ($($t:tt)*) => { () } }
+macro_rules! warn_root { ($($t:tt)*) => { () } }
+pub(crate) use warn_root as warn;
+macro_rules! error { ($($t:tt)*) => { () } }
 #[derive(Clone, Copy, PartialEq, Eq)] pub struct Error(pub u8);
 macro_rules! trivial_debug { ($($t:ty),*) => { $( impl std::fmt::Debug for $t { fn fmt(&self, _f: &mut std::fmt::Formatter<'_>) -> std::fmt::Result { Ok(()) } } )* } }
 trivial_debug!(Error, Name, Value, Str);
@@ -40,9 +45,27 @@ pub struct ThreadRng(pub u8);
 pub fn thread_rng() -> ThreadRng { ThreadRng(0) }
 #[cfg(kani)] impl ThreadRng { pub fn gen<T: kani::Arbitrary>(&mut self) -> T { kani::any() } pub fn gen_range(&mut self, r: std::ops::Range<usize>) -> usize { let i: usize = kani::any(); kani::assume(r.start <= i && i < r.end); i } }
 
-pub trait Connector { fn id(&self) -> u8; }
-pub struct Member(pub u8);
-impl Connector for Member { fn id(&self) -> u8 { self.0 } }
+static mut RECORDED: u8 = 255;            // member name stored on the context (Context::set_connector)
+static mut N_RECORDED: u32 = 0;
+static mut USED: u8 = 255;                // member whose connect() ran last
+static mut N_USED: u32 = 0;
+static mut MEMBER_OK: [bool; MAXN] = [true; MAXN];
+pub trait Connector {
+    fn id(&self) -> u8;
+    fn name(&self) -> &Name;
+    fn connect(self: Arc<Self>, state: Arc<GlobalState>, ctx: ContextRef) -> Ready<Result<(), Error>>;
+}
+pub struct Member(pub u8, pub Name);
+impl Connector for Member {
+    fn id(&self) -> u8 { self.0 }
+    fn name(&self) -> &Name { &self.1 }
+    fn connect(self: Arc<Self>, _state: Arc<GlobalState>, _ctx: ContextRef) -> Ready<Result<(), Error>> { unsafe {
+        USED = self.0; N_USED += 1;
+        ready(if MEMBER_OK[self.0 as usize] { Ok(()) } else { Err(Error(9)) })
+    } }
+}
+impl Name { pub fn to_owned(&self) -> Name { *self } pub fn as_str(&self) -> &Name { self } }
+impl std::fmt::Display for Name { fn fmt(&self, _f: &mut std::fmt::Formatter<'_>) -> std::fmt::Result { Ok(()) } }
 pub struct ConnMap { pub conns: [Arc<dyn Connector>; MAXN] }
 impl ConnMap {
     /// the registry is keyed by name: member name i is registered as connector i; other names are not registered
@@ -72,10 +95,12 @@ impl From<ScriptContext> for ScriptCtxArc { fn from(c: ScriptContext) -> Self { 
 pub fn create_context(p: Props) -> ScriptContext { ScriptContext(p) }
 pub struct KeyExpr(pub u8);
 impl KeyExpr { pub fn real_value_of(&self, ctx: ScriptCtxArc) -> Result<Value, Error> { if ctx.0.eval_ok { Ok(ctx.0.key) } else { Err(Error(1)) } } }
-pub struct CtxInner(pub Props);
+#[derive(Clone)] pub struct CtxInner(pub Props);
 impl CtxInner { pub fn props(&self) -> &Props { &self.0 } }
-pub struct ContextRef(pub CtxInner);
-impl ContextRef { pub fn read(&self) -> Ready<&CtxInner> { ready(&self.0) } }
+#[derive(Clone)] pub struct ContextRef(pub CtxInner);
+pub struct CtxW(pub u8);
+impl CtxW { pub fn set_connector(&mut self, n: Name) -> &mut Self { unsafe { RECORDED = n.0; N_RECORDED += 1; } self } }
+impl ContextRef { pub fn read(&self) -> Ready<&CtxInner> { ready(&self.0) } pub fn write(&self) -> Ready<CtxW> { ready(CtxW(0)) } }
 
 include!("lb.in.rs");
 
@@ -94,7 +119,7 @@ fn setup(algorithm: Algorithm) -> (Arc<LoadBalanceConnector>, Arc<GlobalState>, 
     // decider keeps the cursor small because a symbolic 64-bit `%` is the expensive part for CBMC
     kani::assume(start < 8);
     let lb = LoadBalanceConnector { name: Name(200), connectors: Vec { items: [Name(0), Name(1), Name(2)], len: n }, algorithm, idx: AtomicUsize::new(start), hash_by: Some(KeyExpr(0)) };
-    let st = GlobalState { connectors: ConnMap { conns: [Arc::new(Member(0)), Arc::new(Member(1)), Arc::new(Member(2))] } };
+    let st = GlobalState { connectors: ConnMap { conns: [Arc::new(Member(0, Name(0))), Arc::new(Member(1, Name(1))), Arc::new(Member(2, Name(2)))] } };
     (Arc::new(lb), Arc::new(st), n)
 }
 #[cfg(kani)]
@@ -144,5 +169,29 @@ fn random_selects_members_and_every_member() {
     kani::cover!(n == 3 && id == 0);
     kani::cover!(n == 3 && id == 1);
     kani::cover!(n == 3 && id == 2);
+}
+#[cfg(kani)]
+#[kani::proof]
+#[kani::unwind(10)]
+fn connect_records_the_member_it_uses() {
+    // the dispatch over the algorithm is three calls of selectors checked above; the round-robin arm stands for it
+    // here (all three arms symbolic at once exceed 20 minutes of CBMC time)
+    let k: u8 = 0;
+    let (lb, st, n) = setup(Algorithm::RoundRobin);
+    unsafe { MEMBER_OK = kani::any(); }
+    let ctx = ContextRef(CtxInner(Props { key: any_value(), eval_ok: kani::any() }));
+    let eval_ok = ctx.0 .0.eval_ok;
+    let r = run_ready(lb.connect(st, ctx));
+    unsafe {
+        if N_USED > 0 {
+            // C17: "the member actually used is the one recorded for the connection", a configured member
+            assert!((USED as usize) < n && RECORDED == USED, "the connection is recorded for another member than the one that carries it");
+            assert!(r.is_ok() == MEMBER_OK[USED as usize]);
+        } else {
+            assert!(r.is_err() && k >= 2 && !eval_ok, "no member was asked although one could be selected");
+        }
+        kani::cover!(r.is_ok() && n == 3);
+        kani::cover!(r.is_err() && N_USED == 1);
+    }
 }
 fn main() {}
